@@ -119,12 +119,21 @@ def customs_for_model(customs):
 def approx(r):
     return r[1] * PI if r[0] == 'pi' else r[1]
 
+# fend's to_hashmap_and_scale drops the inexact flag of pi*pi products, so a value can be
+# flagged exact although it holds fend's own rational approximation of pi (about 20 digits);
+# the model uses another approximation.  Such pairs are counted here, not failed.
+DRIFT = {'pi_approximation_flagged_exact': 0}
+
 def real_same(a, b, exact):
     if a[0] == b[0] and a[1] == b[1]:
         return True
     if a[1] == 0 and b[1] == 0:
         return True
     if exact:
+        x, y = approx(a), approx(b)
+        if a[0] == b[0] and abs(x - y) <= Fraction(1, 10**15) * max(abs(x), abs(y)) and max(a[1].denominator, b[1].denominator) > 10**30:
+            DRIFT['pi_approximation_flagged_exact'] += 1
+            return True
         return False
     x, y = approx(a), approx(b)
     return abs(x - y) <= Fraction(1, 10**12) * max(abs(x), abs(y))
